@@ -11,6 +11,6 @@ cd /verif
 for id in "$@"; do
   out=$(VERIF_REPO="$wt" VERIF_EVIDENCE_KEEP=1 ./check "$id" --tier "${TIER:-quick}" 2>&1)
   rc=$?
+  echo "$out" | grep -E "^  key=|^INCONCLUSIVE|^BUILD-FAILED" | cut -c1-220 | sort | uniq -c | head -6
   echo "== $id exit=$rc"
-  echo "$out" | grep -E "^  key=|^INCONCLUSIVE|^BUILD-FAILED" | sort | uniq -c | head -8
 done
